@@ -382,15 +382,21 @@ def run_job(job):
         for bi, B in enumerate(bases):
             T = table(B)
             if kind == "mul":
-                for variant in ("naf", "naf-with-order", "precompute"):
+                for variant in ("naf", "naf-with-order", "precompute", "naf-scaled-z2", "precompute-scaled-z2", "precompute-scaled-z3"):
                     def fn():
                         k = BV.var("k", 0, 2 * n)
+                        zz = 3 if variant.endswith("z3") else 2
+                        sx, sy = B[0] * zz * zz % p, B[1] * zz ** 3 % p  # the same point in a scaled representation
                         if variant == "naf":
                             P = ec.PointJacobi(curve, B[0], B[1], 1)
                         elif variant == "naf-with-order":
                             P = ec.PointJacobi(curve, B[0], B[1], 1, n)
-                        else:
+                        elif variant == "precompute":
                             P = ec.PointJacobi(curve, B[0], B[1], 1, n, generator=True)
+                        elif variant == "naf-scaled-z2":
+                            P = ec.PointJacobi(curve, sx, sy, zz, n)
+                        else:
+                            P = ec.PointJacobi(curve, sx, sy, zz, n, generator=True)
                         return k, coords(P * k)
 
                     for pc, (k, (X3, Y3, Z3)) in bv.Explorer(timeout_ms=180000, unknown_is_feasible=True).explore(fn):
@@ -643,7 +649,11 @@ def replay(job):
             B = pts[0] if "base0" in q or "base" not in q else pts[len(pts) // 2]
             k = w["k"]
             variant = q.split(":")[1] if ":" in q else "naf"
-            P = ec.PointJacobi(curve, B[0], B[1], 1, None if variant == "naf" else n, generator=(variant == "precompute"))
+            if "scaled" in variant:
+                zz = 3 if variant.endswith("z3") else 2
+                P = ec.PointJacobi(curve, B[0] * zz * zz % p, B[1] * zz ** 3 % p, zz, n, generator=variant.startswith("precompute"))
+            else:
+                P = ec.PointJacobi(curve, B[0], B[1], 1, None if variant == "naf" else n, generator=(variant == "precompute"))
             s = P * k
             got = None if s is ec.INFINITY else aff(*s._PointJacobi__coords)
             want = None
